@@ -9,6 +9,7 @@ use edp_client::framing::{FrameMode, MessageDeframer, MessageFramer};
 use serde_json::json;
 use std::pin::Pin;
 use std::task::{Context, Poll};
+use std::time::Duration;
 use tokio::io::{AsyncRead, AsyncWriteExt, ReadBuf};
 
 /// AsyncRead serving scripted chunks; returns Pending (after re-arming the waker) before a chunk
@@ -574,8 +575,131 @@ async fn read_half_part(ctx: &Ctx, rng: &mut Rng) {
     }
 }
 
+/// Coalescing across the handshake / traffic boundary and across the hand-over of the read half (what
+/// `Node::connect` does): the peer writes its last handshake message and the first distribution frames in one
+/// piece; `k` messages are read through the connection, the rest from the read half taken out of it.
+async fn handover_part(ctx: &Ctx, rng: &mut Rng) {
+    use crate::mon::net::{self, PEER_BASE_FLAGS, Peer};
+    use crate::refmodel::md5::challenge_digest;
+    use erltf::OwnedTerm;
+    let epmd = net::start_epmd().await;
+    for round in 0..ctx.pick(24usize, 400usize) {
+        if !ctx.time_left() {
+            break;
+        }
+        let name = format!("h{}", round);
+        let pl = net::listen_as(&epmd, &name).await;
+        let nmsg = 2 + rng.below(6);
+        let via_connection = rng.below(nmsg.min(3)); // messages read before the read half is taken
+        let coalesce_status_and_challenge = rng.bool();
+        let in_first_write = 1 + rng.below(nmsg); // frames glued to the final handshake message
+        let with_ticks = rng.bool();
+        let mut frames: Vec<Vec<u8>> = Vec::new();
+        for i in 0..nmsg {
+            let control = OwnedTerm::Tuple(vec![OwnedTerm::Integer(2), OwnedTerm::atom(""), OwnedTerm::Pid(erltf::ExternalPid::new(erltf::Atom::new("a@b"), i as u32 + 1, 0, 1))]);
+            let blen = *rng.pick(&[0usize, 3, 200, 9000]);
+            let payload = OwnedTerm::Tuple(vec![OwnedTerm::Integer(i as i64), OwnedTerm::Binary(rng.bytes(blen))]);
+            let mut body = vec![112u8];
+            body.extend(erltf::encode(&control).unwrap());
+            body.extend(erltf::encode(&payload).unwrap());
+            let mut f = (body.len() as u32).to_be_bytes().to_vec();
+            f.extend_from_slice(&body);
+            if with_ticks && i % 2 == 1 {
+                f.extend_from_slice(&[0, 0, 0, 0]);
+            }
+            frames.push(f);
+        }
+        let to_send = frames.clone();
+        let peer_task = tokio::spawn(async move {
+            let mut peer = pl.accept("cookie", PEER_BASE_FLAGS, 991).await.ok()?;
+            peer.recv_name().await.ok()?;
+            let status = Peer::status_body("ok");
+            let ch = peer.challenge_body();
+            if coalesce_status_and_challenge {
+                let mut b = (status.len() as u16).to_be_bytes().to_vec();
+                b.extend_from_slice(&status);
+                b.extend_from_slice(&(ch.len() as u16).to_be_bytes());
+                b.extend_from_slice(&ch);
+                peer.sock_write(&b).await.ok()?;
+            } else {
+                peer.write_frame2(&status).await.ok()?;
+                peer.write_frame2(&ch).await.ok()?;
+            }
+            let (client_challenge, _) = peer.recv_reply().await.ok()?;
+            let ack = Peer::ack_body(&challenge_digest("cookie", client_challenge));
+            let mut first = (ack.len() as u16).to_be_bytes().to_vec();
+            first.extend_from_slice(&ack);
+            for f in to_send.iter().take(in_first_write) {
+                first.extend_from_slice(f);
+            }
+            peer.sock_write(&first).await.ok()?;
+            tokio::time::sleep(Duration::from_millis(20)).await;
+            // the rest in one more piece
+            let rest: Vec<u8> = to_send.iter().skip(in_first_write).flat_map(|f| f.iter().copied()).collect();
+            if !rest.is_empty() {
+                peer.sock_write(&rest).await.ok()?;
+            }
+            tokio::time::sleep(Duration::from_millis(1500)).await;
+            Some(())
+        });
+        let cfg = edp_client::ConnectionConfig::new("rust@127.0.0.1", format!("{}@127.0.0.1", name), "cookie").with_epmd_host("127.0.0.1").with_timeout(Duration::from_millis(1000));
+        let mut conn = edp_client::Connection::new(cfg);
+        ctx.class(&format!("handover/{}msgs/{}glued-to-ack/{}via-connection{}", nmsg, in_first_write.min(4), via_connection, if with_ticks { "/ticks" } else { "" }));
+        if let Err(e) = conn.connect().await {
+            ctx.viol("C05:handover:handshake-failed", "the handshake failed when the peer's last handshake message arrived glued to the first distribution frames", json!({"error": e.to_string(), "status_and_challenge_coalesced": coalesce_status_and_challenge, "frames_glued_to_ack": in_first_write}));
+            peer_task.abort();
+            continue;
+        }
+        let mut got: Vec<i64> = Vec::new();
+        let mut failure: Option<String> = None;
+        for _ in 0..via_connection {
+            match tokio::time::timeout(Duration::from_secs(3), conn.receive_message()).await {
+                Ok(Ok((_, Some(OwnedTerm::Tuple(t))))) => {
+                    if let Some(OwnedTerm::Integer(i)) = t.first() {
+                        got.push(*i);
+                    }
+                }
+                other => {
+                    failure = Some(format!("receive_message: {:?}", other.map(|r| r.map(|_| ()).map_err(|e| e.to_string()))));
+                    break;
+                }
+            }
+        }
+        if failure.is_none() {
+            match conn.take_read_half() {
+                None => failure = Some("no read half".into()),
+                Some(mut rh) => {
+                    while got.len() < nmsg {
+                        match tokio::time::timeout(Duration::from_secs(3), edp_client::Connection::receive_message_from_read_half(&mut rh, Duration::from_millis(1000))).await {
+                            Ok(Ok((_, Some(OwnedTerm::Tuple(t))))) => {
+                                if let Some(OwnedTerm::Integer(i)) = t.first() {
+                                    got.push(*i);
+                                }
+                            }
+                            other => {
+                                failure = Some(format!("read half: {:?}", other.map(|r| r.map(|_| ()).map_err(|e| e.to_string()))));
+                                break;
+                            }
+                        }
+                    }
+                }
+            }
+        }
+        ctx.eval(nmsg as u64);
+        let want: Vec<i64> = (0..nmsg as i64).collect();
+        if got != want {
+            ctx.viol(
+                "C05:handover:frames-lost-or-torn",
+                "frames that arrived glued to the last handshake message / to each other were not all read back across the hand-over of the read half",
+                json!({"messages_sent": nmsg, "frames_glued_to_ack": in_first_write, "read_through_connection_first": via_connection, "received": got, "failure": failure, "ticks": with_ticks}),
+            );
+        }
+        peer_task.abort();
+    }
+}
+
 pub fn run(ctx: &Ctx) {
-    ctx.rule("cases = message sequences (lengths 0,1,2,255,256,65535,65536,... in both framing modes) written by both framing functions and read back under a scripted transport: ALL 2^(n-1) chunkings of every stream up to 11 (quick) / 15 (thorough) bytes with Pending between chunks, random cuts / 1-byte dribble / cuts around frame boundaries for long streams, over-long declared lengths (allocation measured), EOF at every offset inside a frame; the streaming writer over scripted write transports (every combination of 1..6 bytes accepted by the first two calls, fixed k bytes per call, random scripts; plain and truly vectored transports; Pending between calls) and through an in-memory pipe of every capacity 1..24 bytes against a concurrent reader; plus the node's second read loop over a real loopback socket written in scripted slices; evaluations = frames read and judged; distinct = distinct (mode, frame-length classes, chunking style) combinations");
+    ctx.rule("cases = message sequences (lengths 0,1,2,255,256,65535,65536,... in both framing modes) written by both framing functions and read back under a scripted transport: ALL 2^(n-1) chunkings of every stream up to 11 (quick) / 15 (thorough) bytes with Pending between chunks, random cuts / 1-byte dribble / cuts around frame boundaries for long streams, over-long declared lengths (allocation measured), EOF at every offset inside a frame; the streaming writer over scripted write transports (every combination of 1..6 bytes accepted by the first two calls, fixed k bytes per call, random scripts; plain and truly vectored transports; Pending between calls) and through an in-memory pipe of every capacity 1..24 bytes against a concurrent reader; plus handshakes whose last message arrives glued to the first distribution frames, read partly through the connection and partly from the read half taken out of it; plus the node's second read loop over a real loopback socket written in scripted slices; evaluations = frames read and judged; distinct = distinct (mode, frame-length classes, chunking style) combinations");
     ctx.assume("independent framing model: big-endian length prefix (2 bytes handshake, 4 bytes distribution) followed by the data");
     let rt = tokio::runtime::Builder::new_current_thread().enable_all().build().expect("runtime");
     let mut rng = Rng::derive(ctx.seed, 5, 1);
@@ -583,6 +707,7 @@ pub fn run(ctx: &Ctx) {
         rt.block_on(async {
             deframer_part(ctx, &mut rng).await;
             writer_part(ctx, &mut rng).await;
+            handover_part(ctx, &mut rng).await;
             read_half_part(ctx, &mut rng).await;
         })
     });
